@@ -12,8 +12,8 @@ from . import c13
 ID = "C14"
 META = {
     "technique": "runtime monitoring: inverse-pair monitor on split/parse vs merge (function level) and on parse_string(append_middleware)/write_string(prepend_middleware) (document level), over bounded-exhaustive single names and random name lists",
-    "level_text": "Every valid single name up to the token bound over the C13 alphabet and random lists of 1-5 persons are split and parsed into NameParts by the real functions, merged last-name-first and joined with ' and ', and split/parsed again: the NameParts lists must be equal. Sampled documents run the same through parse_string with SeparateCoAuthors+SplitNameParts appended and write_string with MergeNameParts+MergeCoAuthors prepended (copy and in-place), re-parsed, with non-name fields and other blocks unchanged.",
-    "level_note": "quantifier: valid names, non-empty Last, no word ending in an odd number of backslashes; document level additionally excludes words ending in any backslash (dialect side condition S2)",
+    "level_text": "Every valid single name up to the token bound over the C13 alphabet plus the words 'and'/'AND' (as name words: tied, glued to a comma, first in the value) and random lists of 1-5 persons are split and parsed into NameParts by the real functions, merged last-name-first and joined with ' and ', and split/parsed again: the NameParts lists must be equal. Sampled documents run the same through parse_string with SeparateCoAuthors+SplitNameParts appended and write_string with MergeNameParts+MergeCoAuthors prepended (copy and in-place), re-parsed, with non-name fields and other blocks unchanged.",
+    "level_note": "quantifier: valid names, non-empty Last, no word ending in an odd number of backslashes; document level excludes only values containing '@' (block-opener rule S1)",
 }
 RULE = ("case = author value: every valid single name <= L tokens over the C13 alphabet + random lists of 1-5 persons; non-trivial = a name with a von "
         "or Jr part or >= 2 persons; distinct = distinct value")
